@@ -98,6 +98,24 @@ TInsert ==
           /\ Note(~fault /\ Sh!InsertValid(E.pts), "emptykey")
   /\ VersPush
 
+\* Several insert requests issued at the same time (the storage engine admits one writer at a time): the outcome
+\* must be that of SOME order of them.  The requests of a race share a fresh id, so whichever is first wins and
+\* the others must be refused as a whole; E.P is the projection after all of them returned.
+RECURSIVE Concat(_, _)
+Concat(bs, ks) == IF ks = <<>> THEN <<>> ELSE bs[Head(ks)] \o Concat(bs, Tail(ks))
+TInsertRace ==
+  /\ IsEvent("InsertRace")
+  /\ fault' = FALSE /\ Env /\ UNCHANGED kf
+  /\ LET succ == SelectSeq([k \in DOMAIN E.oks |-> k], LAMBDA k : E.oks[k] = 1)
+         all == Concat(E.batches, succ)
+     IN  /\ PNodesFunctional(E.P)
+         /\ Sh!InsertBatch(all, PN(E.P), PF(E.P), E.P.next)     \* accepted requests are pairwise disjoint and new
+         /\ count' = E.P.count
+         /\ \A k \in DOMAIN E.oks : E.oks[k] = 0 =>
+               (~Sh!InsertValid(E.batches[k]) \/ Sh!BIds(E.batches[k]) \cap Sh!BIds(all) # {})
+         /\ ((\A k \in DOMAIN E.oks : Sh!InsertValid(E.batches[k])) => Len(succ) >= 1)
+  /\ VersPush
+
 TUpdate ==
   /\ IsEvent("Update")
   /\ fault' = FALSE /\ Env
@@ -352,7 +370,7 @@ TErrKnown ==
 TQuiet == IsEvent("Quiet") /\ Obs
 
 TraceNext ==
-  \/ TReset \/ TFault \/ TInsert \/ TUpdate \/ TDelete \/ TFork \/ TRestore \/ TCrash
+  \/ TReset \/ TFault \/ TInsert \/ TInsertRace \/ TUpdate \/ TDelete \/ TFork \/ TRestore \/ TCrash
   \/ TCount \/ TGet \/ TFilter \/ TFlat \/ TVamana \/ TVamanaPair \/ TFlatPair \/ TCSearch \/ TErrKnown \/ TText \/ TTextRepeat \/ TGraph \/ TQuiet
 
 TraceSpec == TraceInit /\ [][TraceNext]_vars
